@@ -70,11 +70,22 @@ Section bound.
   Definition calm (s : sys) : Prop :=
     slot s = ∅ /\ (forall dst k d, ~ msg_in s dst (MInvalidated k d)) /\ (forall dst k r, ~ msg_in s dst (MUnrequested k r)).
 
+  Lemma wl_mid pre m rest : wl (pre ++ m :: rest) = wl (pre ++ rest) + wmsg m.
+  Proof. unfold wl. rewrite !sum_list_with_app. cbn. lia. Qed.
+
+  Lemma root_consume_phi s pre o rest :
+    ph s = PRun -> rootq s = pre ++ o :: rest -> Phi (root_consume false s o (pre ++ rest)) + 1 <= Phi s.
+  Proof.
+    intros Hrun Hq. unfold root_consume.
+    assert (Hlen : length (rootq s) = S (length (pre ++ rest))) by (rewrite Hq, !app_length; cbn; lia).
+    destruct o as [[|d] [k r|k r|[] t act|k t]|t]; unfold Phi; cbn; rewrite ?Hrun; cbn; rewrite ?size_dom; lia.
+  Qed.
+
   Lemma exec_phi s l s' :
     calm s -> exec fx false s l = Some s' ->
     match l with LSignal => Phi s' = Phi s | _ => Phi s' + 1 <= Phi s end.
   Proof.
-    intros (Hslot & Hninv & Hnun) H. destruct l as [t ok|t ok|t|t r| | | | |ts|]; cbn [exec] in H.
+    intros (Hslot & Hninv & Hnun) H. destruct l as [t ok|t ok|t|t r| | | | |ts| |t i ok|i]; cbn [exec] in H.
     - destruct (actors s !! t) as [a|] eqn:Ha; [|done].
       destruct (inbox s !! t) as [[|m rest]|] eqn:Hib; try done.
       assert (Hin : msg_in s (ATarget t) m) by (cbn; exists (m :: rest); split; [done|apply elem_of_list_here]).
@@ -93,9 +104,8 @@ Section bound.
       pose proof (apply_step_phi _ _ _ (EBuildDone r) _ _ _ _ _ Ha I H) as Hphi. cbn [wev] in Hphi. lia.
     - destruct (root_running s && (false || negb (root_sets_empty s))) eqn:Hc; [|done].
       apply andb_true_iff in Hc as [Hrun _]. apply bool_decide_eq_true in Hrun.
-      destruct (rootq s) as [|o rest] eqn:Hq; [done|].
-      destruct o as [[|d] [k r|k r|[] t act|k t]|t]; injection H as <-; unfold Phi; cbn; rewrite ?Hq, ?Hrun; cbn; try lia.
-      rewrite size_dom. lia.
+      destruct (rootq s) as [|o rest] eqn:Hq; [done|]. injection H as <-.
+      by apply (root_consume_phi s [] o rest).
     - destruct (root_running s && negb false && root_sets_empty s) eqn:Hc; [|done].
       apply andb_true_iff in Hc as [Hc _]. apply andb_true_iff in Hc as [Hrun _]. apply bool_decide_eq_true in Hrun.
       destruct (set_empty (r_svc s)); injection H as <-; unfold Phi; cbn; rewrite ?Hrun; cbn; rewrite ?size_dom; lia.
@@ -107,6 +117,20 @@ Section bound.
     - done.
     - destruct (ph s) eqn:Hph; try done. destruct (all_exited s); [|done]. injection H as <-.
       unfold Phi. cbn. rewrite Hph. cbn. lia.
+    - destruct (actors s !! t) as [a|] eqn:Ha; [|done].
+      destruct (inbox s !! t) as [l|] eqn:Hib; [|done].
+      destruct (pick i l) as [[[pre m] rest]|] eqn:Hpk; [|done]. destruct (none_from _ _ pre); [|done].
+      apply pick_spec in Hpk. subst l.
+      assert (Hin : msg_in s (ATarget t) m) by (cbn; exists (pre ++ m :: rest); split; [done|apply elem_of_mid]).
+      assert (Hp : plain_event (EMsg m)).
+      { destruct m as [k r|k r|k d act|k d]; cbn; try done; [by eapply Hnun|by eapply Hninv]. }
+      pose proof (apply_step_phi _ _ _ _ _ _ _ _ _ Ha Hp H) as Hphi.
+      pose proof (msum_insert_Some wl (inbox s) t (pre ++ m :: rest) (pre ++ rest) Hib) as Hms.
+      cbn [wev] in Hphi. rewrite wl_mid in Hms. lia.
+    - destruct (root_running s && (false || negb (root_sets_empty s))) eqn:Hc; [|done].
+      apply andb_true_iff in Hc as [Hrun _]. apply bool_decide_eq_true in Hrun.
+      destruct (pick i (rootq s)) as [[[pre o] rest]|] eqn:Hpk; [|done]. destruct (none_from _ _ pre); [|done].
+      injection H as <-. apply pick_spec in Hpk. by apply root_consume_phi.
   Qed.
 
   (* number of steps other than signal deliveries *)
@@ -217,7 +241,7 @@ Qed.
 (* steps in which no script fails and no spawn fails add no failure to the history *)
 Definition benign (l : label) : Prop :=
   match l with
-  | LDeliver _ ok | LInval _ ok => ok = true
+  | LDeliver _ ok | LInval _ ok | LDeliverAt _ _ ok => ok = true
   | LBuildDone _ r => r <> RFailed
   | _ => True
   end.
@@ -246,21 +270,26 @@ Proof.
   { intros ok t a e ib sl tq Ha -> Hne. destruct (apply_step_hist _ _ _ _ _ _ _ _ _ _ Ha) as (a' & os & ob & Hst & Hh).
     rewrite Hh in Hin. apply elem_of_app in Hin as [?|Hin]; [done|].
     destruct (step_fail_cause _ _ _ _ _ _ _ Hst x Hin); done. }
-  destruct l as [t ok|t ok|t|t r| | | | |ts|]; cbn [exec benign] in *.
+  assert (Hroot : forall o rest, hist (root_consume w s o rest) = hist s).
+  { intros o rest. unfold root_consume. destruct w; [done|]. by destruct o as [[|d] [k r|k r|[] t act|k t]|t]. }
+  destruct l as [t ok|t ok|t|t r| | | | |ts| |t i ok|i]; cbn [exec benign] in *.
   - destruct (actors s !! t); [|done]. destruct (inbox s !! t) as [[|m rest]|]; try done. by eapply Hact.
   - destruct (actors s !! t); [|done]. case_bool_decide; [|done]. by eapply Hact.
   - destruct (actors s !! t); [|done]. case_bool_decide; [|done]. by eapply Hact.
   - destruct (actors s !! t) as [a|]; [|done]. destruct (match r with RCancelled => cancel_sent a | _ => true end); [|done].
     eapply Hact; [done|done|]. intros [= ->]. done.
   - destruct (root_running s && _); [|done]. destruct (rootq s) as [|o rest]; [done|].
-    destruct w; [by injection H as <-|].
-    destruct o as [[|d] [k r|k r|[] t act|k t]|t]; injection H as <-; exact Hin.
+    injection H as <-. by rewrite Hroot in Hin.
   - destruct (root_running s && negb w && root_sets_empty s); [|done].
     destruct (set_empty (r_svc s)); injection H as <-; exact Hin.
   - destruct (ph s); try done; injection H as <-; exact Hin.
   - destruct (sigq s && _); [|done]. injection H as <-. exact Hin.
   - destruct (w && _); [|done]. injection H as <-. exact Hin.
   - destruct (ph s); try done. destruct (all_exited s); [|done]. injection H as <-. exact Hin.
+  - destruct (actors s !! t); [|done]. destruct (inbox s !! t) as [l|]; [|done].
+    destruct (pick i l) as [[[pre m] rest]|]; [|done]. destruct (none_from _ _ pre); [|done]. by eapply Hact.
+  - destruct (root_running s && _); [|done]. destruct (pick i (rootq s)) as [[[pre o] rest]|]; [|done].
+    destruct (none_from _ _ pre); [|done]. injection H as <-. by rewrite Hroot in Hin.
 Qed.
 
 Lemma reach_quiescent fx g roots : forall n s,
@@ -296,7 +325,7 @@ Definition finishing (st : status) (s : sys) : Prop := ph s = PTerminating st \/
 
 Lemma exec_finishing fx w s l s' st : exec fx w s l = Some s' -> finishing st s -> finishing st s'.
 Proof.
-  unfold finishing. intros H Hf. destruct l as [t ok|t ok|t|t r| | | | |ts|]; cbn [exec] in H.
+  unfold finishing. intros H Hf. destruct l as [t ok|t ok|t|t r| | | | |ts| |t i ok|i]; cbn [exec] in H.
   - destruct (actors s !! t); [|done]. destruct (inbox s !! t) as [[|m rest]|]; try done.
     by rewrite (apply_step_ph _ _ _ _ _ _ _ H).
   - destruct (actors s !! t); [|done]. case_bool_decide; [|done]. by rewrite (apply_step_ph _ _ _ _ _ _ _ H).
@@ -310,6 +339,10 @@ Proof.
     destruct Hf as [Hp|Hp]; rewrite Hp in H; rewrite !bool_decide_eq_false_2 in H by done; done.
   - destruct (w && _); [|done]. by injection H as <-.
   - destruct Hf as [Hp|Hp]; rewrite Hp in H; [|done]. destruct (all_exited s); [|done]. injection H as <-. by right.
+  - destruct (actors s !! t); [|done]. destruct (inbox s !! t) as [l|]; [|done].
+    destruct (pick i l) as [[[pre m] rest]|]; [|done]. destruct (none_from _ _ pre); [|done].
+    by rewrite (apply_step_ph _ _ _ _ _ _ _ H).
+  - destruct (root_running s) eqn:Hrr; [|done]. unfold root_running in Hrr. apply bool_decide_eq_true in Hrr. rewrite Hrr in Hf. by destruct Hf.
 Qed.
 
 Lemma run_finishing fx w st ls : forall s s', run_labels fx w s ls = Some s' -> finishing st s -> finishing st s'.
